@@ -7,7 +7,7 @@ pub fn def() -> PropDef {
     PropDef {
         id: "C14",
         builds: BOTH,
-        rule: "every text over {L,SP,HY,W,NL,CM,TAB,NB,ZW,OP,CL,CSI,CR} up to length N x separators x algorithms x none/hyphen x break_words x widths 0..=display width+2, MAX, empty indents; fill(fill(t)) == fill(t) under the statement's preconditions (Unicode separator: no reference fragment wider than the width when break_words is on; optimal-fit: additionally no overflowing line in the first result); non-trivial = the first fill has >= 2 lines and the precondition holds",
+        rule: "every text over {L,SP,HY,W,NL,CM,TAB,NB,ZW,OP,CL,CSI,CR} up to length N x separators x algorithms x none/hyphen x break_words x LF/CRLF x widths 0..=display width+2, MAX, empty indents; fill(fill(t)) == fill(t) under the statement's preconditions (Unicode separator: no reference fragment wider than the width when break_words is on; optimal-fit: additionally no overflowing line in the first result); non-trivial = the first fill has >= 2 lines and the precondition holds",
         assumptions: BASE_ASSUMPTIONS,
         floor: |t| t.pick(100_000, 300_000),
         run,
@@ -18,21 +18,27 @@ fn run(r: &mut Run) -> Result<(), MachineryError> {
     let t = r.tier;
     let alpha = [L, SP, HY, W, NL, CM, TAB, NB, ZW, OP, CL, CSI, CR];
     let n = t.pick(4, 5);
-    let g = Gamma { seps: seps(), algs: algs_default(), spls: vec![Spl::None, Spl::Hyphen], bws: vec![true, false], indents: vec![("", "")], crlf: vec![false] };
+    let g = Gamma { seps: seps(), algs: algs_default(), spls: vec![Spl::None, Spl::Hyphen], bws: vec![true, false], indents: vec![("", "")], crlf: vec![false, true] };
     let bases = g.bases();
     let space = Space { name: "C14/texts".into(), menu: menu(&alpha), max_len: n, desc: format!("texts of length <= {}; {}; widths 0..=display width+2, MAX", n, g.describe()) };
     r.space(space, |seq, cx| {
-        let text = build(seq, &alpha);
-        cx.set_input(&text);
-        let hi = width_hi(&text, WidthMode::Display, 0);
+        let text_lf = build(seq, &alpha);
+        cx.set_input(&text_lf);
+        let text_crlf = text_lf.replace('\n', "\r\n");
+        let hi = width_hi(&text_lf, WidthMode::Display, 0);
         for base in &bases {
+            if base.crlf && !(text_lf.contains('\n') || text_lf.contains('\r')) {
+                continue;
+            }
+            let text: &str = if base.crlf { &text_crlf } else { &text_lf };
+            let les = base.ending();
             for w in (0..=hi).chain([usize::MAX]) {
                 cx.eval();
                 let cfg = Cfg { width: w, ..*base };
                 let o = cfg.opts();
                 let d = || cfg.d();
                 let (f1, f2) = match cx.guard(|| {
-                    let f1 = fill(&text, &o);
+                    let f1 = fill(text, &o);
                     let f2 = fill(&f1, &o);
                     (f1, f2)
                 }) {
@@ -43,8 +49,14 @@ fn run(r: &mut Run) -> Result<(), MachineryError> {
                 // preconditions
                 let mut pre = true;
                 if cfg.is_uni() && cfg.bw {
-                    for par in text.split('\n') {
-                        let vis = ref_visible(par).unwrap();
+                    for par in text.split(les) {
+                        let vis = match ref_visible(par) {
+                            Some(v) => v,
+                            None => {
+                                pre = false;
+                                continue;
+                            }
+                        };
                         let fb = ref_frag_bounds(par, &vis, &cfg);
                         let mut all = vec![0];
                         all.extend(fb.iter().map(|&(_, hi)| hi));
@@ -54,14 +66,14 @@ fn run(r: &mut Run) -> Result<(), MachineryError> {
                         }
                     }
                 }
-                if !cfg.is_ff() && f1.split('\n').any(|l| ref_visible(l).map(|v| v.width() > w).unwrap_or(true)) {
+                if !cfg.is_ff() && f1.split(les).any(|l| ref_visible(l).map(|v| v.width() > w).unwrap_or(true)) {
                     pre = false;
                 }
                 if !pre {
                     cx.note("C14-precondition-not-met(skipped)");
                     continue;
                 }
-                if f1.contains('\n') && f1.split('\n').count() > text.split('\n').count() {
+                if f1.split(les).count() > text.split(les).count() {
                     cx.nontrivial();
                     if cx.want_sample() {
                         cx.sample(&|| json!({"text": text, "config": cfg.d(), "fill": f1}));
